@@ -197,14 +197,19 @@ class BaseClient:
         code, rest = await self.parse_line()
         info = [rest]
         curr_code = code
+        foreign_code = None
         while rest.startswith("-") or not curr_code.isdigit():
             curr_code, rest = await self.parse_line()
             if curr_code.isdigit():
                 info.append(rest)
-                if curr_code != code:
-                    raise errors.StatusCodeError(code, curr_code, info)
+                if curr_code != code and foreign_code is None:
+                    foreign_code = curr_code
             else:
                 info.append(curr_code + rest)
+        if foreign_code is not None:
+            # raised when the reply has been read to its end: what follows on
+            # the stream is the next reply
+            raise errors.StatusCodeError(code, foreign_code, info)
         return code, info
 
     def check_codes(self, expected_codes, received_code, info):
